@@ -9,6 +9,7 @@ import warnings
 import torch
 
 from . import common
+from .util_batch import same_values
 from .util_batch import ALGEBRA, DIM, DT, GROUPS, LTYPES, MANIFOLD, ltype_name, ltype_of, numel, pp
 
 
@@ -99,11 +100,14 @@ def _degenerate_everything(ctx):
         warnings.simplefilter("ignore")
         for ls in ((), (1,), (1, 1)):
             for dt in ("float64", "float32"):
+                if ctx.quick and ls == (1, 1):
+                    continue
+                grads = (False, True) if (ls == () or not ctx.quick) else (True,)      # quick: forward-only calls for the single item only
                 for lt in LTYPES:
                     base = c06.POOLS.get(lt, dt)[5:6].reshape(ls + (-1,)).clone()
                     for op, apis, _ in c06.unary_ops(lt):
                         for api in sorted(apis):
-                            for grad in (False, True):
+                            for grad in grads:
                                 try:
                                     xt = base.clone().requires_grad_(grad)
                                     r = apis[api](P.LieTensor(xt, ltype=ltype_of(lt)))
@@ -123,7 +127,7 @@ def _degenerate_everything(ctx):
                     xb = c06.POOLS.get(spec["px"], dt)[6:7].reshape(ls + (-1,)).clone()
                     yb = c06.POOLS.get(spec["py"], dt)[7:8].reshape(ls + (-1,)).clone()
                     for api in sorted(spec["apis"]):
-                        for grad in (False, True):
+                        for grad in grads:
                             try:
                                 xt = xb.clone().requires_grad_(grad)
                                 yt = yb.clone().requires_grad_(grad)
@@ -147,7 +151,7 @@ def _compare(ctx, before, after, what):
             if isinstance(v0, Exception) != isinstance(v1, Exception):
                 ctx.fail(case, f"history: {label} {'raises' if isinstance(v1, Exception) else 'no longer raises'} after {what} ({str(v1)[:80] if isinstance(v1, Exception) else ''})")
             continue
-        if len(v0) != len(v1) or any(a.shape != b.shape or a.dtype != b.dtype or not torch.equal(torch.nan_to_num(a), torch.nan_to_num(b)) for a, b in zip(v0, v1)):
+        if len(v0) != len(v1) or any(a.shape != b.shape or a.dtype != b.dtype or not same_values(a, b) for a, b in zip(v0, v1)):
             a, b = v0[0], v1[0]
             ctx.fail(case, f"history: {label} on the SAME three items returns other values after {what} than at the start of the process "
                            f"({a.flatten()[:4].tolist()} → {b.flatten()[:4].tolist() if a.shape == b.shape else tuple(b.shape)}) — a module-level constant was overwritten")
@@ -429,7 +433,163 @@ def stream_propsubclass(ctx):
                     ctx.fail(case, f"subclass: {lt}.{op} on a user LieTensor whose ltype is a property raises {type(e).__name__}: {str(e)[:80]}")
                     continue
                 ok = isinstance(got, P.LieTensor) == isinstance(want, P.LieTensor) and getattr(got, "ltype", None) is getattr(want, "ltype", None) \
-                    and got.shape == want.shape and torch.equal(torch.nan_to_num(c06._plain(got).detach()), torch.nan_to_num(c06._plain(want).detach()))
+                    and got.shape == want.shape and same_values(c06._plain(got).detach(), c06._plain(want).detach())
                 if not ok:
                     ctx.fail(case, f"subclass: {lt}.{op} on a user LieTensor whose ltype is a property returns {type(got).__name__}/{ltype_name(getattr(got, 'ltype', None))} "
                                    f"— other type / ltype / values than for a LieTensor")
+
+
+# ============================================================================= pass 7 (38c): exact ties of the matrix conversions
+
+def signed_permutations():
+    """the 24 rotation matrices with entries in {0, ±1}: every comparison between diagonal entries in `mat2SO3` (d0 > d1, d0 < -d1,
+    d2 < atol) is an EXACT tie or an exact strict case for them; all exactly representable in every dtype"""
+    import itertools
+    out = []
+    for perm in itertools.permutations(range(3)):
+        for signs in itertools.product((1.0, -1.0), repeat=3):
+            M = torch.zeros(3, 3, dtype=torch.float64)
+            for r in range(3):
+                M[r, perm[r]] = signs[r]
+            if abs(float(torch.det(M)) - 1.0) < 1e-9:
+                out.append(M)
+    return out
+
+
+def stream_convties(ctx):
+    """`mat2SO3 / mat2SE3 / mat2RxSO3 / mat2Sim3 / from_matrix` on the 24 signed permutation matrices (+ two generic rotations), both
+    dtypes, `check` on and off: the batch equals the conversion of each matrix alone bit for bit, every result is finite (no branch
+    of the four-way selection may be left unselected on a tie) and converting back gives the matrix"""
+    P = pp()
+    c06 = C()
+    Rs = signed_permutations()
+    gen = c06._lie(c06.POOLS.get("SO3", "float64")[:2].clone(), "SO3").matrix()
+    Rs = Rs + [gen[0], gen[1]]
+    t = torch.tensor([0.5, -2.0, 4.0], dtype=torch.float64)
+    with warnings.catch_warnings():
+        warnings.simplefilter("ignore")
+        for g in GROUPS:
+            for dtn in ("float64", "float32"):
+                for scale in ((1.0,) if g in ("SO3", "SE3") else (1.0, 2.0, 0.5)):
+                    mats = []
+                    for R in Rs:
+                        if g in ("SO3", "RxSO3"):
+                            M = scale * R
+                        else:
+                            M = torch.eye(4, dtype=torch.float64)
+                            M[:3, :3] = scale * R
+                            M[:3, 3] = t
+                        mats.append(M)
+                    B = torch.stack(mats).to(DT[dtn])
+                    for fname, fn in ((f"mat2{g}", lambda m, ck: getattr(P, "mat2" + g)(m, check=ck)), ("from_matrix", lambda m, ck: P.from_matrix(m, ltype_of(g), check=ck))):
+                        if ctx.quick and fname == "from_matrix" and dtn == "float32":
+                            continue
+                        for ck in ((True, False) if dtn == "float64" else (False,)):
+                            case = {"kind": "convties", "f": fname, "g": g, "dtype": dtn, "scale": scale, "check": ck}
+                            ctx.note_case(("convties", fname, g, dtn, scale, ck), True)
+                            ctx.count("convties")
+                            try:
+                                full = fn(B.clone(), ck)
+                            except Exception as e:
+                                ctx.fail(case, f"raises: {fname}({g}) on the batch of signed permutation matrices raises {type(e).__name__}: {str(e)[:80]}")
+                                continue
+                            ft = c06._plain(full)
+                            if getattr(full, "ltype", None) is not ltype_of(g) or tuple(ft.shape) != (len(mats), DIM[g]):
+                                ctx.fail(case, f"ltype: {fname}({g}) on a batch of {len(mats)} matrices returns {ltype_name(getattr(full, 'ltype', None))} {tuple(ft.shape)}")
+                                continue
+                            for k in range(len(mats)):
+                                one = c06._plain(fn(B[k].clone(), ck))
+                                what = f"matrix #{k} = {B[k][:3, :3].tolist()} (scale {scale}, {dtn}, check={ck})"
+                                if not bool(torch.isfinite(one).all()) or not bool(torch.isfinite(ft[k]).all()):
+                                    ctx.fail(dict(case, k=k), f"non-finite result: {fname}({g}) of the valid {what} is {one.tolist()}")
+                                    break
+                                if not same_values(ft[k], one):
+                                    ctx.fail(dict(case, k=k), f"itemwise: {fname}({g}) on the batch gives {ft[k].tolist()} for {what}, alone {one.tolist()}")
+                                    break
+                                back = c06._plain(c06._lie(one.clone(), g).matrix())
+                                want = B[k] if g in ("SO3", "RxSO3") else B[k]
+                                if back.shape[-1] != want.shape[-1]:
+                                    back = back[..., :want.shape[-2], :want.shape[-1]]
+                                if not bool(((back - want).abs() <= 1e-5 * (1 + want.abs())).all()):
+                                    ctx.fail(dict(case, k=k), f"roundtrip: {fname}({g}) of {what} is {one.tolist()}, whose matrix() is {back.tolist()}")
+                                    break
+
+
+# ============================================================================= pass 7 (B): torch's stride rules = the modelled views
+
+def stream_views(ctx):
+    """chains of slice / select / expand views of a contiguous LieTensor: storage offset, strides (of every dimension with extent > 1;
+    in items) and lshape equal the model's `View.slice / select / expand` (theorems `view_slice`, `view_select`, `view_expand`,
+    `contiguous_of_view` are about these definitions), and `.contiguous()` holds the items the model addresses"""
+    c06 = C()
+    rng = c06.det_rng()
+    cases = []
+    for n in range(ctx.pick(120, 1200)):
+        r = (rng if n < 60 else ctx.rng)
+        s = [r.choice([1, 2, 3, 4]) for _ in range(r.randint(1, 3))]
+        ops, cur = [], list(s)
+        for _ in range(r.randint(1, 3)):
+            kind = r.choice("LSE") if cur else "E"
+            if kind == "L":
+                dim = r.randrange(len(cur))
+                step = r.choice([1, 1, 2, 3])
+                start = r.randrange(cur[dim])
+                ln = r.randint(1, (cur[dim] - start - 1) // step + 1)
+                ops.append(("L", dim, start, step, ln))
+                cur[dim] = ln
+            elif kind == "S":
+                dim = r.randrange(len(cur))
+                ops.append(("S", dim, r.randrange(cur[dim])))
+                cur.pop(dim)
+            else:
+                new = [r.choice([1, 2, 3]) for _ in range(r.randint(0, 2))] + [(c if c != 1 else r.choice([1, 1, 2, 4])) for c in cur]
+                ops.append(("E", tuple(new)))
+                cur = list(new)
+        cases.append({"kind": "views", "s": s, "ops": [list(o) if o[0] != "E" else ["E", list(o[1])] for o in ops], "lt": LTYPES[n % 8]})
+    lines = []
+    for c in cases:
+        toks = []
+        for o in c["ops"]:
+            toks += [o[0]] + ([str(x) for x in o[1:]] if o[0] != "E" else [str(len(o[1]))] + [str(x) for x in o[1]])
+        lines.append("c06.view " + " ".join([str(len(c["s"]))] + [str(x) for x in c["s"]] + toks))
+    reps = ctx.driver.run(lines)
+    for c, rep in zip(cases, reps):
+        ctx.note_case(("views", tuple(c["s"]), str(c["ops"])), True)
+        ctx.count("views")
+        d = DIM[c["lt"]]
+        base = torch.arange(numel(c["s"]) * d, dtype=torch.float64).reshape(tuple(c["s"]) + (d,))
+        X = c06._lie(base.clone(), c["lt"])
+        V = X
+        for o in c["ops"]:
+            if o[0] == "L":
+                _, dim, start, step, ln = o
+                V = V[(slice(None),) * dim + (slice(start, start + (ln - 1) * step + 1, step),)]
+            elif o[0] == "S":
+                V = V.select(o[1], o[2])
+            else:
+                V = V.expand(tuple(o[1]) + (d,))
+        st, toks = common.parse_reply(rep)
+        if st != "ok":
+            ctx.disagree("views", c, f"model rejects the view chain {c['ops']} of lshape {c['s']} that torch accepts: {rep}")
+            continue
+        txt = " ".join(toks).split("|")
+        off = int(txt[0])
+        mstr = [int(x) for x in txt[1].split()[2:]]
+        mshape = [int(x) for x in txt[2].split()[2:]]
+        if type(V) is not type(X) or V.ltype is not X.ltype:
+            ctx.fail(c, f"ltype: the view chain {c['ops']} of a {c['lt']} LieTensor returns {type(V).__name__} / {ltype_name(getattr(V, 'ltype', None))}")
+            continue
+        tshape, tstr, toff = list(V.shape[:-1]), [x // d for x in V.stride()[:-1]], V.storage_offset() // d
+        same = tshape == mshape and toff == off and len(tstr) == len(mstr) and all(a == b for a, b, n_ in zip(tstr, mstr, tshape) if n_ > 1)
+        if not same or V.stride()[-1] != 1 or V.storage_offset() % d:
+            ctx.disagree("views", c, f"view chain {c['ops']} of lshape {c['s']}: torch gives lshape {tshape}, item strides {tstr}, item offset {toff}; "
+                                     f"the model lshape {mshape}, strides {mstr}, offset {off}")
+            continue
+        # `.contiguous()` holds the addressed items (first element of item k of the base is k * d)
+        got = (c06._plain(V.contiguous())[..., 0] / d).reshape(-1).long().tolist()
+        idx = [[]]
+        for n_ in mshape:
+            idx = [i + [j] for i in idx for j in range(n_)]
+        want = [off + sum(a * b for a, b in zip(i, mstr)) for i in idx]
+        if got != want:
+            ctx.fail(c, f"views: `.contiguous()` of the view chain {c['ops']} of a {c['lt']} LieTensor of lshape {c['s']} holds items {got[:8]}…, the addressed items are {want[:8]}…")
